@@ -278,6 +278,42 @@ CHAPTER = [
 ]
 
 
+# the entry file BEGINS with an @include, and so does every included file down to the innermost one: line 0 of the
+# combined text comes from the innermost file, and the first line of every file stands at a file boundary
+FIRST_MAIN = [
+    ("pre", "@include {NEXT}"),
+    ("pre", ":: Start"),
+    ("body", "Main text."),
+    ("body", "+ [Inc] -> Inc1"),
+    ("body", "+ [End] -> End"),
+    ("body", ""),
+    ("body", ":: Shop(item, count=1)"),
+    ("body", "A shop with {item}."),
+    ("body", ""),
+    ("body", ":: End"),
+    ("body", "Fin."),
+    ("body", None),
+]
+FIRST_PATHS = ["main.bard", "lib/one.bard", "lib/inner/two.bard", "lib/inner/three.bard"]
+
+
+def include_first(depth):
+    """main.bard -> lib/one.bard -> lib/inner/two.bard -> lib/inner/three.bard (the first `depth` of them), each file
+    but the last starting with the @include of the next."""
+    hosts = {}
+    for k in range(depth + 1):
+        rel = FIRST_PATHS[k]
+        nxt = os.path.relpath(FIRST_PATHS[k + 1], os.path.dirname(rel) or ".") if k < depth else None
+        if k == 0:
+            host = [(c, t.replace("{NEXT}", nxt) if t else t) for c, t in FIRST_MAIN]
+        else:
+            host = ([("pre", "@include " + nxt)] if nxt else []) + [
+                ("pre", f":: Inc{k}"), ("body", f"Text of file {k}."), ("body", "+ [Back] -> Start"),
+                ("body", "-> End" if k % 2 else ""), ("body", None)]
+        hosts[rel] = host
+    return ("main.bard", hosts)
+
+
 def hollow_one(kind):
     """One kind of hollow file included before the rest of the including file and before a later file."""
     f = HOLLOW_KINDS[kind]
@@ -296,6 +332,9 @@ SCENARIOS = {
     "join": ("main.bard", {"main.bard": HOST_JOIN}),
     "struct": ("main.bard", {"main.bard": HOST_STRUCT}),
     "hollow": ("main.bard", dict({"main.bard": MAIN_HOLLOW, "chapter.bard": CHAPTER}, **HOLLOW_FILES)),
+    "include-first-1": include_first(1),
+    "include-first-2": include_first(2),
+    "include-first-3": include_first(3),
 }
 # the single-file scenarios added for what stands before the construct run in two entry modes in the quick tier
 TWO_MODES_QUICK = ("join", "struct")
@@ -646,7 +685,7 @@ def scenarios_for(tier, rng):
         for name, (entry, hosts) in SCENARIOS.items():
             if tier == "quick" and name == "plain":
                 continue
-            if tier == "quick" and name in ("join", "struct", "hollow"):
+            if tier == "quick" and (name in ("join", "struct", "hollow") or name.startswith("include-first")):
                 continue
             scns[f"{name}~{v}"] = (entry, {r: (h if isinstance(h, str) else vary(h, rng, rng.randint(2, 6)))
                                            for r, h in hosts.items()})
